@@ -76,6 +76,8 @@ static bool gFlagR = false;     // entity reference boundaries: R<name> ... r<na
 static bool gFlagW = false;     // drop ignorable whitespace
 static bool gFlagL = false;     // @line:col on S tokens (sax, sax2)
 static bool gFlagD = false;     // D<name> token for the DOCTYPE
+static bool gFlagN = false;     // namespace info: qName built from prefix:local (sax), #uri#local on S tokens (sax2, dom, ls)
+static bool gNsOn = false;
 static const Locator* gLocator = 0;    // given to setDocumentLocator during the current parse
 
 // external entities served from memory: sysid -> bytes (per request)
@@ -156,6 +158,21 @@ static void evStart(const XMLCh* name, std::vector<std::pair<U16, U16> >& attrs)
         gEvents += '=';
         hex4(gEvents, attrs[i].second.data(), attrs[i].second.size());
     }
+}
+// appended to the S token that was just written (flag n)
+static void evNsInfo(const XMLCh* uri, const XMLCh* local) {
+    if (!gFlagN) return;
+    gEvents += '#';
+    hex4z(gEvents, uri ? uri : (const XMLCh*)u"");
+    gEvents += '#';
+    hex4z(gEvents, local ? local : (const XMLCh*)u"");
+}
+// the qualified name as SAXParser::startElement builds it for the SAX1 DocumentHandler
+static U16 advQName(const XMLElementDecl& elemDecl, const XMLCh* prefix) {
+    if (!gFlagN) return u16(elemDecl.getFullName());
+    if (!gNsOn) return u16(elemDecl.getFullName());
+    if (prefix && *prefix) { U16 q(prefix); q += (XMLCh)':'; q += u16(elemDecl.getBaseName()); return q; }
+    return u16(elemDecl.getBaseName());
 }
 static void evEnd(const XMLCh* name) {
     flushText();
@@ -287,8 +304,8 @@ public:
     }
     virtual void docPI(const XMLCh* const target, const XMLCh* const data) { evPI(target, data); }
     virtual void endDocument() {}
-    virtual void endElement(const XMLElementDecl& elemDecl, const unsigned int, const bool, const XMLCh* const) {
-        evEnd(elemDecl.getFullName());
+    virtual void endElement(const XMLElementDecl& elemDecl, const unsigned int, const bool, const XMLCh* const prefix) {
+        evEnd(advQName(elemDecl, prefix).c_str());
         if (gDepth > 0) gDepth--;
     }
     virtual void endEntityReference(const XMLEntityDecl& entDecl) {
@@ -301,7 +318,7 @@ public:
     }
     virtual void resetDocument() {}
     virtual void startDocument() {}
-    virtual void startElement(const XMLElementDecl& elemDecl, const unsigned int, const XMLCh* const,
+    virtual void startElement(const XMLElementDecl& elemDecl, const unsigned int, const XMLCh* const prefix,
                               const RefVectorOf<XMLAttr>& attrList, const XMLSize_t attrCount,
                               const bool isEmpty, const bool) {
         std::vector<std::pair<U16, U16> > attrs;
@@ -309,9 +326,10 @@ public:
             const XMLAttr* a = attrList.elementAt(i);
             attrs.push_back(std::make_pair(u16(a->getQName()), u16(a->getValue())));
         }
-        evStart(elemDecl.getFullName(), attrs);
+        U16 qn = advQName(elemDecl, prefix);
+        evStart(qn.c_str(), attrs);
         evLoc();
-        if (isEmpty) evEnd(elemDecl.getFullName());   // no endElement call for advanced handlers
+        if (isEmpty) evEnd(qn.c_str());   // no endElement call for advanced handlers
         else gDepth++;
     }
     virtual void startEntityReference(const XMLEntityDecl& entDecl) {
@@ -356,13 +374,14 @@ public:
         if (gFlagW) return;
         evText(chars, length);
     }
-    virtual void startElement(const XMLCh* const, const XMLCh* const, const XMLCh* const qname,
+    virtual void startElement(const XMLCh* const uri, const XMLCh* const localname, const XMLCh* const qname,
                               const Attributes& at) {
         std::vector<std::pair<U16, U16> > attrs;
         XMLSize_t n = at.getLength();
         for (XMLSize_t i = 0; i < n; i++)
             attrs.push_back(std::make_pair(u16(at.getQName(i)), u16(at.getValue(i))));
         evStart(qname, attrs);
+        evNsInfo(uri, localname);
         evLoc();
         gDepth++;
     }
@@ -401,6 +420,7 @@ static void walkNodeOpen(DOMNode* n, bool& descend) {
             }
         }
         evStart(n->getNodeName(), attrs);
+        evNsInfo(n->getNamespaceURI(), n->getLocalName());
         descend = true;
         break;
     }
@@ -642,7 +662,7 @@ static std::string doParse(const std::vector<std::string>& a) {
     if (api != "sax" && api != "sax2" && api != "dom" && api != "ls") return "bad-request";
     if (!validHexDoc(hex)) return "bad-request";
 
-    bool fP = false, fR = false, fW = false, fL = false, fD = false;
+    bool fP = false, fR = false, fW = false, fL = false, fD = false, fN = false, fS = false;
     if (a.size() > 5 && a[5] != "-") {
         if (a[5].empty()) return "bad-request";
         for (size_t i = 0; i < a[5].size(); i++) {
@@ -652,6 +672,8 @@ static std::string doParse(const std::vector<std::string>& a) {
             case 'w': fW = true; break;
             case 'l': fL = true; break;
             case 'd': fD = true; break;
+            case 'n': fN = true; break;
+            case 's': fS = true; break;      // schema processing on, validation "auto" (validate if a grammar is found)
             default: return "bad-request";
             }
         }
@@ -667,7 +689,7 @@ static std::string doParse(const std::vector<std::string>& a) {
     }
     if (fP && api == "ls") return "unsupported | - | fh=0";
 
-    gFlagP = fP; gFlagR = fR; gFlagW = fW; gFlagL = fL; gFlagD = fD;
+    gFlagP = fP; gFlagR = fR; gFlagW = fW; gFlagL = fL; gFlagD = fD; gFlagN = fN; gNsOn = (nsS == "1");
     gEntTable.swap(table);
 
     const bool ns = nsS == "1";
@@ -675,6 +697,7 @@ static std::string doParse(const std::vector<std::string>& a) {
     std::string key = scn + nsS;
     if (fR) key += 'r';
     if (fW) key += 'w';
+    if (fS) key += 's';
 
     std::vector<XMLByte> bytes;
     unhex(hex, bytes);
@@ -688,6 +711,10 @@ static std::string doParse(const std::vector<std::string>& a) {
         RecSAXParser* p = 0;
         guarded([&] { p = getSax(key, scanner, ns); });
         if (p) {
+            guarded([&] {
+                p->setDoSchema(fS);
+                p->setValidationScheme(fS ? SAXParser::Val_Auto : SAXParser::Val_Never);
+            });
             // the plain handler is only needed for the locator (l) / to enable DOCTYPE events (d)
             guarded([&] {
                 p->setDocumentHandler(fL ? &gSax1Aux : 0);
@@ -711,6 +738,11 @@ static std::string doParse(const std::vector<std::string>& a) {
         RecSAX2Reader* p = 0;
         guarded([&] { p = getSax2(key, scanner, ns); });
         if (p) {
+            guarded([&] {
+                p->setFeature(XMLUni::fgXercesSchema, fS);
+                p->setFeature(XMLUni::fgSAX2CoreValidation, fS);
+                p->setFeature(XMLUni::fgXercesDynamic, fS);
+            });
             XMLPScanToken token;
             bool started = false;
             guarded([&] {
@@ -733,6 +765,8 @@ static std::string doParse(const std::vector<std::string>& a) {
             guarded([&] {
                 p->setCreateEntityReferenceNodes(fR);
                 p->setIncludeIgnorableWhitespace(!fW);
+                p->setDoSchema(fS);
+                p->setValidationScheme(fS ? XercesDOMParser::Val_Auto : XercesDOMParser::Val_Never);
             });
             XMLPScanToken token;
             bool started = false;
@@ -756,6 +790,8 @@ static std::string doParse(const std::vector<std::string>& a) {
                 DOMConfiguration* c = p->getDomConfig();
                 c->setParameter(XMLUni::fgDOMEntities, fR);
                 c->setParameter(XMLUni::fgDOMElementContentWhitespace, !fW);
+                c->setParameter(XMLUni::fgXercesSchema, fS);
+                c->setParameter(XMLUni::fgDOMValidateIfSchema, fS);
             });
             guarded([&] {
                 MemBufInputSource* src = new MemBufInputSource(data, bytes.size(), "xh", false);
